@@ -308,6 +308,9 @@ impl Observer {
         if self.keep_recent {
             self.note_recent(format!("seq={} t={}us node {} COMMIT round {} {}", seq, t_us, node, b.round, ident::short(&d)));
         }
+        if self.trace.as_ref().map_or(false, |f: &Vec<usize>| f.contains(&node)) {
+            eprintln!("TRACE seq={} t={} node {} COMMIT round {} {}", seq, t_us, node, b.round, ident::short(&d));
+        }
 
         // ---- C02: per-node delivery order -------------------------------------------------
         if b.round == 0 || b.author == PublicKey::default() {
